@@ -118,7 +118,18 @@ impl TaskValid {
             changed_when: self.parse_condition("changed_when")?,
             check_mode: match global_params.check_mode {
                 true => true,
-                false => self.attrs["check_mode"].as_bool().unwrap_or(false),
+                // `check_mode: yes` is a string for YAML 1.2: taking it for `false` would run a task
+                // for real that was meant to be a dry run
+                false => match &self.attrs["check_mode"] {
+                    Value::Null => false,
+                    Value::Bool(b) => *b,
+                    other => {
+                        return Err(Error::new(
+                            ErrorKind::InvalidData,
+                            format!("check_mode must be a boolean (true or false): {other:?}"),
+                        ));
+                    }
+                },
             },
             // &dyn Module from &Box<dyn Module>
             module: &**MODULES.get::<str>(module_name).ok_or_else(|| {
